@@ -2,7 +2,8 @@
 # tools/sweep_seeds.sh: for every seeded change, apply it to /repo, run every registered check
 # (in parallel, evidence written to a scratch dir), record which checks fire, undo. Writes seeded/RESULTS.md.
 cd /verif; . ./env.sh
-props=$(python3 -c "import json;print(' '.join(c['property_id'] for c in json.load(open('MANIFEST.json'))['checks']))")
+# by default only the seed's own property is checked; FULL=1 runs every registered check (slow)
+allprops=$(python3 -c "import json;print(' '.join(c['property_id'] for c in json.load(open('MANIFEST.json'))['checks']))")
 ev=/tmp/sweep_ev.$$; mkdir -p $ev; cp known_findings.json $ev/
 out=seeded/RESULTS.md
 echo "| seed | property | fired checks (exit 1) | rules reported by the property's own check |" > $out
@@ -10,6 +11,7 @@ echo "|---|---|---|---|" >> $out
 for d in seeded/C*/; do
   id=$(basename $d); prop=${id%-*}
   git -C /repo apply "$(pwd)/$d/patch.diff" || { echo "| $id | $prop | APPLY FAILED | |" >> $out; continue; }
+  props=$prop; [ -n "$FULL" ] && props=$allprops
   for p in $props; do ( bin/rsa check --property $p --repo /repo --verif $ev > $ev/$p.out 2>&1; echo $? > $ev/$p.rc ) & done; wait
   fired=""; for p in $props; do rc=$(cat $ev/$p.rc); [ "$rc" = "1" ] && fired="$fired $p"; [ "$rc" = "2" ] && fired="$fired $p(incomplete)"; done
   rules=$(grep -E "^  [A-Z][A-Z0-9-]+ / " $ev/$prop.out | sed -E 's/^  ([A-Z0-9-]+) \/ .*/\1/' | sort -u | tr '\n' ' ')
